@@ -211,10 +211,46 @@ def run_narrow(cases, res):
         if got != want or gotl != wantl or gotu != want or gotul != wantl:
             res.fail(c, 'C16: comparison with a np.%s number disagrees with the exact stored value (%s against %s)' % (c['ftype'], v, hv), expected=(dict(zip(OPS, want)), dict(zip(OPS, wantl))), got=(dict(zip(OPS, got)), dict(zip(OPS, gotl)), dict(zip(OPS, gotu)), dict(zip(OPS, gotul))))
 
+def layout_cases(rng, n):
+    """3-D objects whose codes are laid out in neither C nor Fortran order (axes permuted, a fancy index on a middle axis): every conversion and
+    comparison is about the element AT ITS INDEX"""
+    cases = []
+    for _ in range(n):
+        nw = rng.choice([6, 8, 12]); s = rng.random() < 0.7; nf = rng.choice([-2, -1, 0, 1, 2, 3]); lo, hi = S.fmt_bounds(s, nw)
+        cases.append({'layout3d': rng.choice(['transpose102', 'swapaxes12', 'transpose021', 'T', 'fancy_mid', 'intval_transposed']), 'f': [s, nw, nf], 'codes': [rng.randint(lo, hi) for _ in range(24)]})
+    return cases
+
+def run_layout(cases, res):
+    fx = lib.impl(); import numpy as np
+    for c in cases:
+        s, nw, nf = c['f']; codes = np.array(c['codes'], dtype=np.int64).reshape(2, 3, 4); how = c['layout3d']
+        try:
+            if how == 'intval_transposed' and nf <= 0:
+                x = fx.Fxp((codes * 2 ** (-nf)).transpose(1, 0, 2), s, nw, nf); want = codes.transpose(1, 0, 2)      # (integer value type)
+            else:
+                x0 = A.mk(fx, np, s, nw, nf, c['codes'], shape=(2, 3, 4))
+                if how == 'transpose102' or how == 'intval_transposed': x = x0.transpose((1, 0, 2)); want = codes.transpose(1, 0, 2)
+                elif how == 'swapaxes12': x = np.swapaxes(x0, 1, 2); want = np.swapaxes(codes, 1, 2)
+                elif how == 'transpose021': x = x0.transpose((0, 2, 1)); want = codes.transpose(0, 2, 1)
+                elif how == 'T': x = x0.T; want = codes.T
+                else: x = x0[:, [2, 0], :]; want = codes[:, [2, 0], :]
+            if not isinstance(x, fx.Fxp) or np.asarray(x.val).shape != want.shape or np.asarray(x.val).astype(object).tolist() != want.astype(object).tolist(): continue
+            wl = want.astype(object).reshape(-1).tolist()
+            ints = np.asarray(x.astype(int)).astype(object).reshape(-1).tolist()
+            vals = [Fraction(float(v)) for v in np.asarray(x.get_val()).reshape(-1).tolist()]
+            lt0 = np.asarray(x < 0).reshape(-1).tolist(); eq0 = np.asarray(x == 0).reshape(-1).tolist(); ge1 = np.asarray(x >= 1).reshape(-1).tolist()
+        except Exception as e:
+            res.fail(c, 'C16: a conversion or comparison of a 3-D object with permuted axes raised %s' % lib.exc_name(e), got=str(e)[:200]); continue
+        ev = [Fraction(t) / Fraction(2) ** nf for t in wl]
+        res.count('L:3-D-layouts', key=repr(c), nontrivial=True, n=24)
+        if ints != [math.floor(v) for v in ev] or vals != ev or lt0 != [v < 0 for v in ev] or eq0 != [v == 0 for v in ev] or ge1 != [v >= 1 for v in ev]:
+            res.fail(c, 'C16: astype(int) / get_val() / a comparison of a 3-D object with permuted axes is not about the element at its index', expected=[str(v) for v in ev[:8]], got=(ints[:8], [str(v) for v in vals[:8]], lt0[:8]))
+
 def shard(shard, nshards, rng, tier, extra):
     res = Result()
     run_cmp(cmp_cases(rng, (12000 if tier == 'quick' else 100000) // nshards), res)
     run_conv(conv_cases(rng, tier, shard, nshards), res)
+    run_layout(layout_cases(rng, (900 if tier == 'quick' else 8000) // nshards), res)
     run_narrow(narrow_cases(rng, (2400 if tier == 'quick' else 20000) // nshards), res)
     res.exhaustive = True
     return res
@@ -225,6 +261,7 @@ def classify(fl): return None
 def replay(payload):
     c = payload['case']; res = Result()
     if c.get('f16'): run_narrow([c], res)
+    elif c.get('layout3d'): run_layout([c], res)
     elif 'cx' in c: run_cmp([c], res)
     else: run_conv([c], res)
     return {'holds': not res.failures, 'failures': res.failures}
